@@ -308,13 +308,42 @@ void run(const proto::request& r)
         const auto& name = op.name;
         const std::size_t old_vec_size = vec.size();
 
+        // std::vector supports inserting one of its own elements
+        // (`v.insert(p, v.back())`): when the value to insert is also stored
+        // in the array at or behind `from`, pass THAT element (an lvalue
+        // inside the storage that is about to be shifted) instead of the
+        // local copy.  Same value, so the model and the vector side are
+        // unchanged.
+        const auto aliased = [&](std::uint64_t from) -> const V*
+        {
+            if(!vec_valid || w + vec.size() > cap)
+            {
+                return nullptr;
+            }
+            for(std::size_t j = vec.size(); j > from; j--)
+            {
+                if(vec[j - 1] == x0 && data[j - 1] == x0)
+                {
+                    return data + (j - 1);
+                }
+            }
+            return nullptr;
+        };
+
         const std::string st = proto::guarded(
             [&]
             {
                 typename arr_t::iterator it{};
                 if(name == "push")
                 {
-                    a.push_back(x0);
+                    if(const V* p = aliased(0))
+                    {
+                        a.push_back(*p);
+                    }
+                    else
+                    {
+                        a.push_back(x0);
+                    }
                 }
                 else if(name == "pop")
                 {
@@ -336,12 +365,28 @@ void run(const proto::request& r)
                 }
                 else if(name == "ins")
                 {
-                    it = a.insert(data + n0, x0);
+                    if(const V* p = aliased(n0))
+                    {
+                        it = a.insert(data + n0, *p);
+                    }
+                    else
+                    {
+                        it = a.insert(data + n0, x0);
+                    }
                     has_ret = true;
                 }
                 else if(name == "insn")
                 {
-                    it = a.insert(data + n0, static_cast<size_type>(n1), x0);
+                    if(const V* p = aliased(n0))
+                    {
+                        it = a.insert(
+                            data + n0, static_cast<size_type>(n1), *p);
+                    }
+                    else
+                    {
+                        it = a.insert(
+                            data + n0, static_cast<size_type>(n1), x0);
+                    }
                     has_ret = true;
                 }
                 else if(name == "insr")
